@@ -45,7 +45,7 @@ NoQ == <<>>
 In0 == [base |-> [lead |-> TRUE, trailing |-> FALSE, segs |-> <<>>, query |-> NoQ],
         pat  |-> [trailing |-> FALSE, segs |-> <<>>, query |-> NoQ],
         vals |-> <<[n |-> NA, v |-> <<>>], [n |-> NB, v |-> <<>>]>>,
-        cq |-> NoQ, rs |-> <<>>, os |-> <<>>, hist |-> <<>>, host |-> "h"]
+        cq |-> NoQ, opauth |-> FALSE, aq |-> NoQ, dq |-> NoQ, rs |-> <<>>, os |-> <<>>, hist |-> <<>>, host |-> "h"]
 
 Init == track = "start" /\ in = In0
 
@@ -95,6 +95,11 @@ AddQuery ==
           /\ \E n \in 0..2 : in' = [in EXCEPT !.pat.query = Append(@, [k |-> k, vs |-> SubSeq(QV(112), 1, n)])]
        \/ /\ k \notin Keys(in.cq)
           /\ \E n \in 0..2 : in' = [in EXCEPT !.cq = Append(@, [k |-> k, vs |-> SubSeq(QV(99), 1, n)])]
+       \/ /\ in.aq = NoQ      \* the operation's auth writer sets an API key in the query (or nothing: header key)
+          /\ \/ in' = [in EXCEPT !.opauth = TRUE, !.aq = <<[k |-> k, vs |-> << <<97>> >>]>>]
+             \/ ~in.opauth /\ in' = [in EXCEPT !.opauth = TRUE]
+       \/ /\ in.dq = NoQ      \* Runtime.DefaultAuthentication sets one
+          /\ in' = [in EXCEPT !.dq = <<[k |-> k, vs |-> << <<100>> >>]>>]
   /\ UNCHANGED track
 
 \* ---- scheme track
